@@ -162,6 +162,6 @@ def run(tier):
     except Unsupported as ex:
         ck.ob('C09/budget', 'UNDECIDED', f"analysis lost: {ex}")
     ck.note('imported_stage_identities', ['C08 (decode/encode codes)', 'C10 (to_gamma o to_linear)', 'C06 (primaries there-and-back)', 'C05 (opsin inverse)', 'C11 (block structure for subsampled images)'])
-    ck.note('not_decided', ['the numeric budget for transfer BT470BG (gamma 2.8) with any primaries and for the BT.1886 family with primaries ST170M / ST240M (bounds 1.015 - 1.6 x budget, DESIGN.md 8.9); 110 of 130 (transfer, primaries) pairs are decided in the thorough tier'])
+    ck.note('not_decided', ['the numeric budget for transfer BT470BG (gamma 2.8) and xvYCC with any primaries and for the BT.1886 family with primaries ST170M / ST240M (bounds 1.0 - 1.7 x budget, DESIGN.md 8.9); 100 of 130 (transfer, primaries) pairs are decided in the thorough tier'])
     ck.floor('triples', 20)
     return ck.finish()
